@@ -97,9 +97,13 @@ func (p *PanicError) Message() any {
 	return p.p.Message()
 }
 
-// Next returns the next panic in the chain.
+// Next returns the next panic in the chain, or nil if there is no next
+// panic.
 func (p *PanicError) Next() *PanicError {
-	return &PanicError{p.p.Next()}
+	if next := p.p.Next(); next != nil {
+		return &PanicError{next}
+	}
+	return nil
 }
 
 // Recovered reports whether it has been recovered.
